@@ -1005,6 +1005,82 @@ func ruleParResize(c *Ctx, r *R) {
 			return true
 		})
 	}
+	// the same on paths (the initialiser may be parsed under the `=` test and attached after it):
+	// on every path of a declaration parser on which `=` was consumed, a parsed initialiser that
+	// is appended to the declaration has been handed to assignResize
+	for _, name := range []string{"getDecl"} {
+		fd := c.Func(name)
+		if fd == nil || fd.Body == nil {
+			continue
+		}
+		in := newInterp(c)
+		in.Inline = c.isNewHelper
+		in.NoReturn = func(o types.Object) bool { return c.noReturnFuncs()[o] }
+		// the parser moves on: p.Token read after a call that was handed the parser is another token
+		in.H.Post = func(in *Interp, st *State, e ast.Expr, t *T) *T {
+			if t.Op == "field" && t.Name == "Token" && len(t.Args) == 1 && t.Args[0].Op == "var" {
+				epoch := 0
+				for _, ef := range st.Eff {
+					if ef.Kind == "call" && ef.Value != nil && (strings.HasPrefix(ef.Value.Name, "parser.") || strings.Contains(ef.Value.String(), "("+t.Args[0].Name)) {
+						epoch++
+					}
+				}
+				if epoch > 0 {
+					return &T{Op: "field", Name: fmt.Sprintf("Token@%d", epoch), Args: t.Args}
+				}
+			}
+			return nil
+		}
+		paths := in.ExecFunc(fd, nil)
+		if in.Overflow {
+			r.undecided(name+" paths", c.Pos(fd), "path overflow")
+			continue
+		}
+		for _, p := range paths {
+			if p.Done == "panic" {
+				continue
+			}
+			sawEq := false
+			var parsed []*T
+			resized := map[string]bool{}
+			var attached []*T
+			for _, e := range p.Eff {
+				if e.Kind != "call" || e.Value == nil {
+					continue
+				}
+				t := e.Value
+				switch t.Name {
+				case "parser.Advance":
+					if len(t.Args) == 2 && t.Args[1].Op == "str" && t.Args[1].Name == "=" {
+						sawEq = true
+					}
+				case "parser.Expression", "parser.doExpression":
+					if sawEq {
+						parsed = append(parsed, t)
+					}
+				case "assignResize":
+					if len(t.Args) == 2 {
+						resized[t.Args[1].String()] = true
+					}
+				case "token.Append":
+					if len(t.Args) == 2 {
+						attached = append(attached, t.Args[1])
+					}
+				}
+			}
+			for _, pt := range parsed {
+				isAttached := false
+				for _, a := range attached {
+					if a.String() == pt.String() {
+						isAttached = true
+					}
+				}
+				if isAttached && !resized[pt.String()] {
+					r.fail(name+" `=` path", c.Pos(fd), name+": on the path ["+condStrings(p)+"] the initialiser parsed after `=` is attached to the declaration without having gone through assignResize: `var a, b T = f()` requests one result but stores two (the second store pops a local slot)")
+				}
+			}
+		}
+	}
 	// the infix assignment handler
 	rows, err := c.symbolTable()
 	if err == nil {
@@ -1183,7 +1259,11 @@ func ruleInsPatch(c *Ctx, r *R) {
 					placeholder := len(tested) > 0
 					for _, t := range tested {
 						if t != "codeBreak" && t != "codeContinue" {
-							placeholder = false
+							// a parameter of a helper (resolveJumps(block, placeholder, skip)): every
+							// call of the helper passes BREAK or CONTINUE for it
+							if !c.paramAlwaysOneOf(fd, t, "codeBreak", "codeContinue") {
+								placeholder = false
+							}
 						}
 					}
 					r.check(placeholder, fmt.Sprintf("%s %s.Code placeholder", name, elem), c.Pos(as), "only BREAK/CONTINUE placeholders are retyped",
@@ -1199,4 +1279,71 @@ func ruleInsPatch(c *Ctx, r *R) {
 	if n == 0 {
 		r.undecided("patches", "-", "no write to an emitted instruction's operand found")
 	}
+}
+
+// paramAlwaysOneOf: name is a parameter of fd, fd is called at least once in the package, and
+// at every call the argument for that parameter is one of the given constants.
+func (c *Ctx) paramAlwaysOneOf(fd *ast.FuncDecl, name string, allowed ...string) bool {
+	if fd == nil || fd.Type.Params == nil {
+		return false
+	}
+	pos := -1
+	k := 0
+	for _, f := range fd.Type.Params.List {
+		for _, nm := range f.Names {
+			if nm.Name == name {
+				pos = k
+			}
+			k++
+		}
+	}
+	if pos < 0 {
+		return false
+	}
+	self := c.Info.Defs[fd.Name]
+	calls, good := 0, true
+	for _, f := range c.Pkg.Syntax {
+		ast.Inspect(f, func(n ast.Node) bool {
+			call, ok := n.(*ast.CallExpr)
+			if !ok || c.Callee(call) != self {
+				return true
+			}
+			calls++
+			if pos >= len(call.Args) {
+				good = false
+				return true
+			}
+			src := nosp(c.Src(call.Args[pos]))
+			okArg := false
+			for _, a := range allowed {
+				if src == a {
+					okArg = true
+				}
+			}
+			if !okArg {
+				good = false
+			}
+			return true
+		})
+	}
+	// a function value taken of the helper could be called with anything
+	for _, f := range c.Pkg.Syntax {
+		ast.Inspect(f, func(n ast.Node) bool {
+			id, ok := n.(*ast.Ident)
+			if !ok || c.Info.Uses[id] != self {
+				return true
+			}
+			if call, ok := c.Parent(id).(*ast.CallExpr); ok && unparen(call.Fun) == ast.Expr(id) {
+				return true
+			}
+			if sel, ok := c.Parent(id).(*ast.SelectorExpr); ok {
+				if call, ok := c.Parent(sel).(*ast.CallExpr); ok && unparen(call.Fun) == ast.Expr(sel) {
+					return true
+				}
+			}
+			good = false
+			return true
+		})
+	}
+	return calls > 0 && good
 }
